@@ -15,6 +15,7 @@ claimed = {
  "C20": ("classification: package initialisation establishes the two MSM maps exactly (global-init obligations) and nothing else writes them (whole-program structural obligation); MSM4/MSM7/MSM, GetConstellation, getMSMType, the four decoders' type rejection, GetMessage's timestamp guard, Analyse's dispatch and GetTitleAndComment's non-empty title are postconditions over a symbolic message type, i.e. for all integers", "6 C20"),
  "C06": ("UTC conversion across rollovers: one inductive step over ghost truth (start time T, per constellation the true time u of the last accepted observation and a seen flag): New establishes the relation between the handler's week starts / previous timestamps and the truth, and GetMessage preserves it while reporting exactly the true time and week start for every timestamp that encodes a time satisfying the property's hypotheses; illegal timestamps give an error and leave the state untouched; the other constellations' state is framed; all start times, zones (through In(UTC)), histories and interleavings are covered by the induction", "6 C06"),
  "C15": ("determinism / no hidden state over the whole framing-decoding-display cone (59 functions under contract): every function's frame is proved (only the locations in its modifies clause change: decoders change nothing that existed before the call, Analyse / PrepareForDisplay / String change only their own message, no function stores into the bytes of RawData), a second String call leaves the message exactly as it is, and two whole-program structural obligations exclude hidden state (no package variable written outside package initialisers, every one read is init-only) and nondeterminism sources (goroutines, select, map iteration, clock, random) in the cone; that equal inputs give equal results then follows because every function is a deterministic function of its arguments", "6 C15"),
+ "C16": ("rtcmlogger: the copy loop is proved against a prophecy stdin and a ghost stdout log - at every iteration and at loop exit the bytes written equal the bytes consumed, and the blocks sent to the recorder tile the consumed input with private copies; the recorder is proved to write every received block, in order, one Write per block, so its log grows by the concatenation of the blocks; start is covered by the whole-program join obligation (it waits for the recorder's completion signal on every path to its return) and spawn-disjoint.  Assumes sinks accept every write completely; dailylogger is an io.Writer", "6 C16"),
  "C17": ("as C06 with the first observation allowed anywhere in the week of the start time: the relation additionally fixes the previous timestamps to zero before the first message, New establishes that, and the step is proved without the hypothesis that the first observation is not earlier than T", "6 C17"),
  "C07": ("no crash, no hang: zero-tolerance safety sweep over the whole cone of HandleMessages, GetMessage, Analyse, PrepareForDisplay and Message.String (45 functions under contract, everything else inlined): one obligation per index, slice, nil dereference, division, shift count, type assertion, map write, channel operation and precondition of the unchecked bit readers, plus a termination measure for every loop; display code is checked with exact wrap-around arithmetic; both log levels are covered because the level is a symbolic field", "6 C07"),
  "C08": ("ranges, phase ranges, rates: exact integer postconditions for the six GetAggregate* methods (invalid rough value gives 0, invalid fine value falls back to the rough value, otherwise whole x 2^29 + frac x 2^19 + fine with the MSM4 deltas scaled x32 / x4 through the same specification function, which is the MSM4 = MSM7 clause); floating-point postconditions for RangeInMetres, PhaseRange, PhaseRangeRate, PhaseRangeRateDoppler and GetSignalWavelength in the relative-rounding-error model (result within k x 2^-53 of the standard's formula); argument-flow obligations that \"invalid\" reaches the display", "6 C08"),
@@ -30,7 +31,7 @@ NOTE = ("Assumes: the VC generator and SMT solvers; 64-bit int; assumed contract
 not_applicable = {
 }
 
-pending = ["C04","C10","C11","C16","C19"]
+pending = ["C04","C10","C11","C19"]
 
 def main():
     checks = []
